@@ -35,7 +35,7 @@ ARGS = ["0", "1", "2", "-1", "-2", "3", "10", "100", "1/2", "-1/2", "7/2", "-7/2
         "pi*1e308", "1/1.5e-200/1.5e-200", "2.5*1e308", "1e308/0.1", "(0-2.5)*1e308",
         # lazy values that are short products at a large offset (what is left after big factorials cancel)
         # ordinary VALUES whose exact form has enormous numerator and denominator (the argument is a double; its components are not)
-        "(10^700+1)/10^700", "2+1/10^640", "9/4 - 1/10^1000",
+        "(10^700+1)/10^700", "2+1/10^640", "9/4 - 1/10^1000", "2 + 1/10^30000",
         "100000!/99998!", "1000001!/999999!", "3000000!/2999999!", "C(3000,2)", "20!/18!", "100001!/100000!/100000"]
 QARGS = ["90 deg", "180 deg", "45 deg", "2 rad", "-1 rad", "4 m", "-4 m", "(7/2) m", "-7/2 s", "2.5 kg", "0 m", "9 m^2", "1e3 m", "30 deg", "1 dozen"]
 BASES = ["-2", "0", "1/2", "1", "2", "e", "10", "0.9", "3", "1.0", "1/10",
@@ -217,10 +217,13 @@ def check(ctx):
                 if rep:
                     ctx.violation("elem-rejected:" + text, text, "a value", "err " + v, how)
             elif valid:
-                ax = qx if isinstance(x, int) else Fraction(float(qx))
-                ab = qb if isinstance(y, int) else Fraction(float(qb))
-                refreq.append(["log", [str(ax), str(ab)]])
-                refmeta.append((text, v))
+                try:
+                    ax = qx if isinstance(x, int) else Fraction(float(qx))
+                    ab = qb if isinstance(y, int) else Fraction(float(qb))
+                    refreq.append(["log", [str(ax), str(ab)]])
+                    refmeta.append((text, v))
+                except (OverflowError, ValueError):
+                    pass            # argument or base not representable as a double: outside the accuracy clause
             real = "ok " + canon_or_other(v) if k == "ok" else "err " + v
             cases.append(("elem log %s %s" % (num_canon(x), num_canon(y)), real, text))
     # ---------------- x ^ y
